@@ -14,6 +14,13 @@ As coded (constants from `S4V.Gen.Stream`, extracted from the source):
 * `drop_sysline` removes the entry from `syslines` first and then tries `Arc::try_unwrap`: if the
   consumer still holds the message the unwrap fails, its lines stay in `lines`, and nothing
   refers to them again (`SYSLINE_REMOVED_BEFORE_UNWRAP`);
+* `drop_sysline` hands every line of the unwrapped message to `drop_lines`
+  (`DROP_SYSLINE_PASSES_ALL_LINES`); `drop_lines` calls `drop_line` on every one of them
+  (`DROP_LINES_VISITS_ALL = true`) — the functions below take that fact as a parameter `visitAll`:
+  with `false` (`lines.into_iter().any(|l| self.drop_line(l))` and its kin) the walk stops after the first
+  line whose `drop_line` returned `true`, i.e. the first line with a part in an earlier block, and the
+  later lines of the message stay in `lines` for good (`drop_block` is taken to return `true`: with a
+  consumer that has let go, the earlier lines sharing the block were dropped before);
 * `drop_line` drops the blocks of all parts but the last (`LINE_DROP_KEEP_PARTS = 1`): a line that
   lies inside one block drops nothing, so a block whose last byte ends a line is dropped by nobody;
 * a streamed reader (gz/bz2/lz4) drops block `b-1` from `blocks` when it stores block `b`.
@@ -89,9 +96,14 @@ def findMsg (streamed : Bool) (msgs : List Msg) (st : St) (k : Nat) : St :=
 /-- blocks `f ..< l` : the parts of a line except the last -/
 def dropParts (ln : Ln) : List Nat := (List.range (ln.l - ln.f)).map (· + ln.f)
 
+/-- how many lines of a message `drop_lines` hands to `drop_line`: all of them, or (short-circuit
+form) the lines up to and including the first one that has a part in an earlier block -/
+def dropVisited (visitAll : Bool) (m : Msg) : Nat :=
+  if visitAll then m.length else min m.length (m.findIdx (fun ln => decide (ln.f < ln.l)) + 1)
+
 /-- `drop_data_try(message prev)` run after message `k` was sent; `held j` = the consumer still
 references message `j` -/
-def dropTry (msgs : List Msg) (held : Nat → Bool) (st : St) (prev : Nat) : St :=
+def dropTryG (visitAll : Bool) (msgs : List Msg) (held : Nat → Bool) (st : St) (prev : Nat) : St :=
   let boF := (msgs.getD prev []).first
   if boF > DROP_TRY_GUARD then
     let t := boF - DROP_TRY_BACK
@@ -99,9 +111,10 @@ def dropTry (msgs : List Msg) (held : Nat → Bool) (st : St) (prev : Nat) : St 
     let keep := st.syslines.filter fun j => !decide ((msgs.getD j []).last ≤ t)
     let ok := victims.filter fun j => !held j
     let bad := victims.filter held
-    let gone : List Nat := ok.flatMap fun j => (msgs.getD j []).flatMap dropParts
+    let gone : List Nat := ok.flatMap fun j =>
+      ((msgs.getD j []).take (dropVisited visitAll (msgs.getD j []))).flatMap dropParts
     { st with syslines := keep,
-              lines := st.lines.filter (fun p => !ok.contains p.1),
+              lines := st.lines.filter (fun p => !(ok.contains p.1 && decide (p.2 < dropVisited visitAll (msgs.getD p.1 [])))),
               blocks := st.blocks.filter (fun b => !gone.contains b),
               leaked := st.leaked + bad.length }
   else st
@@ -110,19 +123,25 @@ def dropTry (msgs : List Msg) (held : Nat → Bool) (st : St) (prev : Nat) : St 
 `lag k` = how many of the most recent messages the consumer still references when the worker
 reaches the drop after sending `k` (at most `CHANNEL_CAPACITY + 2`: a full channel, the message
 being printed, the message just sent). -/
-def loop (streamed : Bool) (msgs : List Msg) (lag : Nat → Nat) : Nat → Nat → St → St
+def loopG (visitAll streamed : Bool) (msgs : List Msg) (lag : Nat → Nat) : Nat → Nat → St → St
   | 0, _, st => st
   | fuel + 1, k, st =>
     if k < msgs.length then
       let st := findMsg streamed msgs st k
       if k + 1 = msgs.length then st  -- `is_last`: break before the drop
       else
-        let st := if k ≥ 1 then dropTry msgs (fun j => decide (k < j + min (lag k) (CHANNEL_CAPACITY + 2))) st (k - 1) else st
-        loop streamed msgs lag fuel (k + 1) st
+        let st := if k ≥ 1 then dropTryG visitAll msgs (fun j => decide (k < j + min (lag k) (CHANNEL_CAPACITY + 2))) st (k - 1) else st
+        loopG visitAll streamed msgs lag fuel (k + 1) st
     else st
 
+def runG (visitAll streamed : Bool) (lag : Nat → Nat) (msgs : List Msg) : St :=
+  loopG visitAll streamed msgs lag (msgs.length + 1) 0 St.init
+
+/-- the code as it is: `drop_lines` as extracted from the source -/
+def dropTry := dropTryG DROP_LINES_VISITS_ALL
+def loop := loopG DROP_LINES_VISITS_ALL
 def run (streamed : Bool) (lag : Nat → Nat) (msgs : List Msg) : St :=
-  loop streamed msgs lag (msgs.length + 1) 0 St.init
+  runG DROP_LINES_VISITS_ALL streamed lag msgs
 
 /-- a consumer that has released everything by the time of the drop -/
 def prompt : Nat → Nat := fun _ => 0
@@ -144,5 +163,9 @@ message `i` covers blocks `3 i ..= 3 i + 3` -/
 def long7 (n : Nat) : List Msg := (List.range n).map fun i =>
   [⟨3 * i, 3 * i⟩, ⟨3 * i, 3 * i + 1⟩, ⟨3 * i + 1, 3 * i + 1⟩, ⟨3 * i + 1, 3 * i + 2⟩,
    ⟨3 * i + 2, 3 * i + 2⟩, ⟨3 * i + 2, 3 * i + 3⟩, ⟨3 * i + 3, 3 * i + 3⟩]
+
+/-- `n` messages of 3 lines inside 2 blocks, the inner line crossing the block boundary: message `i`
+is `[⟨i,i⟩, ⟨i,i+1⟩, ⟨i+1,i+1⟩]` (an ordinary multi-line message that happens to lie on a block end) -/
+def cross3 (n : Nat) : List Msg := (List.range n).map fun i => [⟨i, i⟩, ⟨i, i + 1⟩, ⟨i + 1, i + 1⟩]
 
 end S4V.Model.Mem
